@@ -484,3 +484,32 @@ MANIFEST_TEXT["C18"] = {
              "against exact emptiness."),
     "note": "Trusted: CPython fractions and the 25-line exact vertex enumeration in pvm/checks/c18.py.",
 }
+
+META["C13"] = {
+    "level": "exploration",
+    "rule": ("cases = steps of sessions (histories of 30 operations drawn from compose, quotient, merge, refines, "
+             "rename, copy, simplify, both eliminations, list refinement / union / difference, optimize, bounds, "
+             "machine and string round trips, to_dict, parse, is_empty, contains_behavior, environment / "
+             "implementation membership) over a shared pool of contracts, term lists and strings into which results "
+             "are fed back. Around every step: deep snapshots (float.hex) of every pool member, of the option lists "
+             "and of the module-level tactic tables; purity flags of every nested monitored call; id-graph aliasing "
+             "check of the result against the pool and in-place mutation of the result followed by a re-snapshot; "
+             "30% (thorough 60%) of the steps are replayed from their serialized operands in a fork of a pristine "
+             "zygote process and 6 steps per history are repeated at the end of the session. Non-trivial = every "
+             "executed step; distinct = step digests."),
+    "required": ["histories", "purity-snapshots", "aliasing-checks", "pristine-replays", "end-of-session-repeats",
+                 "step:compose:ret", "step:quotient:ret", "step:merge:ret", "step:rename:ret", "step:copy:ret",
+                 "step:elim_refine:ret", "step:elim_relax:ret", "step:lsimplify:ret", "step:optimize:ret",
+                 "step:parse:ret", "step:string_roundtrip:ret", "step:machine_roundtrip:ret"],
+    "assumptions": [TB, "os.fork of a single-threaded interpreter (BLAS threads pinned to 1); Var objects are treated "
+                    "as values and may be shared"],
+    "soft_s": {"quick": 240, "thorough": 3000},
+}
+MANIFEST_TEXT["C13"] = {
+    "technique": RM + "session driver over a shared pool with deep before/after snapshots of every live object, option list and module table; id-graph aliasing check and result mutation; replay of steps in a forked pristine interpreter and at the end of the session",
+    "text": ("Exploration over histories: every step of every generated session is checked for purity (all pool "
+             "members, option lists, module state, every nested monitored call), for aliasing between result and "
+             "operands, and for history independence against a pristine interpreter state and against its own "
+             "repetition at the end of the session."),
+    "note": "Trusted: CPython, os.fork semantics, the snapshot function in pvm/probes.py.",
+}
